@@ -1,6 +1,6 @@
 """Confirm a sub-agent's seeded change in a fresh scratch worktree and file it under /verif/seeded/<id>/.
 
-usage: python3-vt tools/confirm_seed.py <PROP> <i> <seed-id>
+usage: python3-vt tools/confirm_seed.py <PROP> <i> <seed-id> [source dir name under /tmp/wtout, default <PROP>]
   reads /tmp/wtout/<PROP>/patch<i>.diff, demo<i>.py, meta<i>.json
 """
 import json
@@ -10,7 +10,7 @@ import subprocess
 import sys
 
 prop, i, sid = sys.argv[1], sys.argv[2], sys.argv[3]
-src = f"/tmp/wtout/{prop}"
+src = f"/tmp/wtout/{sys.argv[4] if len(sys.argv) > 4 else prop}"
 patch, demo, meta = f"{src}/patch{i}.diff", f"{src}/demo{i}.py", f"{src}/meta{i}.json"
 wt = f"/tmp/wt/confirm_{sid}"
 env = dict(os.environ, PYTHONPATH=wt)
